@@ -17,12 +17,11 @@ fn main() {
     let on = |id: &str| want.is_empty() || want.iter().any(|w| w == id);
     if on("F7") {
         run("F7", || {
-            let tz = TimeZone::get("America/New_York").ok()?;
-            let a: Zoned = date(2024, 11, 10).at(1, 30, 0, 0).to_zoned(tz.clone()).ok()?;
-            // the *second* 01:10 on the fall-back day (offset -05)
-            let b = date(2024, 11, 3).at(1, 10, 0, 0);
-            let b = tz.to_ambiguous_zoned(b).later().ok()?;
-            let r = a.until((Unit::Day, &b));   // panics on the unchanged tree
+            // an artificial zone whose offset jumps by 48 hours (POSIX TZ strings admit |offset| < 25h)
+            let tz = TimeZone::posix("AAA24BBB-24,M3.2.0,M11.1.0").ok()?;
+            let a: Zoned = date(2024, 3, 6).at(0, 0, 0, 0).to_zoned(tz.clone()).ok()?;
+            let b: Zoned = date(2024, 3, 12).at(2, 5, 0, 0).to_zoned(tz.clone()).ok()?;
+            let r = a.until((Unit::Day, &b));   // panics: "this should be an error too"
             match r { Ok(_) | Err(_) => None }
         });
     }
